@@ -1724,38 +1724,46 @@ Proof.
   destruct (str_eqb m n); [intro H; injection H as ->; reflexivity|exact IH].
 Qed.
 
-(* parseFunc.  The premise "the token after `func` is an identifier" is what parseFuncSignatures has checked (and reported)
-   for every `func` keyword of the input before the statement loop starts *)
-Lemma func_sim fuel s r s' : parse_func B fuel s = Ok r s' -> serrs s' = [] -> WF s -> ct (adv s) = T_IDENT ->
+(* parseFunc.  A nil result without an error: the token after `func` is not an identifier (Go: "already reported by
+   parseFuncSignatures"; the body has been parsed in a scope of its own and is dropped) *)
+Lemma func_sim' fuel s r s' : parse_func B fuel s = Ok r s' -> serrs s' = [] -> WF s ->
   sused s' = [] /\ fns s' = fns s /\
   match r with
   | Some st => stmt_sok B (fns s) st /\ scope_stmt (tabs_of B (fns s)) st (abs s) = Some (abs s')
-  | None => abs s' = abs s
+  | None => ct (adv s) <> T_IDENT
   end.
 Proof.
-  unfold parse_func. intros H Q [N U] TI. cbv zeta in H. rewrite TI in H.
+  unfold parse_func. intros H Q [N U]. cbv zeta in H.
+  match type of H with context[if negb ?x then _ else _] => set (isid := x) in * end.
   match type of H with context[add_params B (fi_params ?f)] => set (fi := f) in H end.
   match type of H with context[parse_block B fuel ?x] => set (s3 := x) in H end.
   destruct (parse_block B fuel s3) as [b s4| |] eqn:PB; try discriminate H.
-  cbn [negb] in H.
+  assert (COMMON : serrs s4 = [] -> sused s4 = [] /\ fns s4 = fns s /\ block_sok B (fns s) b /\
+            obind (declare_all (tabs_of B (fns s)) (map fst (fi_params fi)) ([] :: abs s)) (scope_block (tabs_of B (fns s)) b)
+            = Some (tl (abs s4))).
+  { intro Q5. destruct (parse_block_sound B _ _ _ _ PB Q5) as (Q3 & _ & _).
+    set (s2 := push_scope true (fi_ret fi) false (apnl (adv s))) in *.
+    assert (N2 : scs s2 <> []) by (unfold s2; simpl; discriminate).
+    destruct (add_params_sim (fi_params fi) s2 Q3 N2) as (D3 & F3 & U3).
+    assert (W3 : WF s3).
+    { split; [|unfold s3; rewrite U3; unfold s2; autorewrite with sused; exact U].
+      eapply (scs_of_frames s2); [|exact N2]. destruct (add_params_sn B (fi_params fi) s2 Q3) as [_ F]. exact F. }
+    destruct (parse_block_sim _ _ _ _ PB Q5 W3) as (U4 & F4 & Tb & Sb).
+    unfold s3 in F4, Tb, Sb. rewrite F3 in F4, Tb, Sb. unfold s2 in F4, Tb, Sb, D3. autorewrite with fns abs in F4, Tb, Sb, D3.
+    split; [exact U4|]. split; [exact F4|]. split; [exact Tb|]. rewrite D3. exact Sb. }
+  destruct isid eqn:ID; cbn [negb] in H.
+  2:{ apply Ok_inj in H as [E1 E2]; subst. autorewrite with serrs in Q. destruct (COMMON Q) as (U4 & F4 & _).
+      autorewrite with sused fns. split; [exact U4|]. split; [exact F4|].
+      intro X. unfold isid in ID. rewrite X in ID. discriminate ID. }
   destruct (mem_str _ _); [apply Ok_inj in H as [E1 E2]; subst; autorewrite with serrs in Q; discriminate Q|].
   apply Ok_inj in H as [E1 E2]; subst r s'.
   change (serrs (finish_end (if fi_ret fi && negb (block_terms b) then serr K_missing_return s4 else s4)) = []) in Q.
   destruct (SN_finish_end _ Q) as [Q5 _].
   destruct (fi_ret fi && negb (block_terms b)) eqn:MR; [discriminate Q5|].
-  destruct (parse_block_sound B _ _ _ _ PB Q5) as (Q3 & _ & _).
-  set (s2 := push_scope true (fi_ret fi) false (apnl (adv s))) in *.
-  assert (N2 : scs s2 <> []) by (unfold s2; simpl; discriminate).
-  destruct (add_params_sim (fi_params fi) s2 Q3 N2) as (D3 & F3 & U3).
-  assert (W3 : WF s3).
-  { split; [|unfold s3; rewrite U3; unfold s2; autorewrite with sused; exact U].
-    eapply (scs_of_frames s2); [|exact N2]. destruct (add_params_sn B (fi_params fi) s2 Q3) as [_ F]. exact F. }
-  destruct (parse_block_sim _ _ _ _ PB Q5 W3) as (U4 & F4 & Tb & Sb).
-  unfold s3 in F4, Tb, Sb. rewrite F3 in F4, Tb, Sb. unfold s2 in F4, Tb, Sb, D3. autorewrite with fns abs in F4, Tb, Sb, D3.
+  destruct (COMMON Q5) as (U4 & F4 & Tb & Sb).
   rewrite sused_pop_scope, fns_pop_scope, abs_pop_scope, sused_rec, fns_rec, abs_rec.
   autorewrite with sused fns abs.
-  split; [exact U4|]. split; [exact F4|]. split; [exact Tb|].
-  cbn [scope_stmt]. fold (scope_block (tabs_of B (fns s))). rewrite D3. exact Sb.
+  split; [exact U4|]. split; [exact F4|]. split; [exact Tb|]. exact Sb.
 Qed.
 
 Lemma scope_on_eq T name params b G :
@@ -1827,4 +1835,199 @@ Proof.
   destruct pnames as [|pn pr] eqn:EP.
   - injection D6 as D6. rewrite D6. exact Sb.
   - destruct (Nat.eqb _ _); [|discriminate D6]. rewrite D6. exact Sb.
+Qed.
+
+(* every `func` keyword at which the statement loop arrives is followed by an identifier *)
+Fixpoint loop_named (fuel : nat) (terms : bool) (s : pst) : bool :=
+  match fuel with
+  | 0 => true
+  | S f =>
+    match ct s with
+    | T_EOF => true
+    | T_FUNC => (match ct (adv s) with T_IDENT => true | _ => false end) &&
+                match parse_func B f s with Ok _ s1 => loop_named f terms s1 | _ => true end
+    | T_ON => match parse_event_handler B f s with Ok _ s1 => loop_named f terms s1 | _ => true end
+    | _ => match parse_statement B f s with
+           | Ok None s1 => loop_named f terms s1
+           | Ok (Some st) s1 => if terms then true else loop_named f (always_terms st) s1
+           | _ => true
+           end
+    end
+  end.
+
+Lemma program_loop_sim : forall fuel acc terms s p s', program_loop B fuel acc terms s = Ok p s' ->
+  serrs s' = [] -> WF s -> loop_named fuel terms s = true ->
+  sused s' = [] /\ fns s' = fns s /\
+  exists l, p = rev acc ++ l /\ stmts_sok B (fns s) l /\ scope_stmts (tabs_of B (fns s)) l (abs s) = Some (abs s').
+Proof.
+  induction fuel as [|f IH]; intros acc terms s p s' H Q W LN; [discriminate|]. cbn [program_loop] in H. cbn [loop_named] in LN.
+  set (GOAL := sused s' = [] /\ fns s' = fns s /\
+    exists l, p = rev acc ++ l /\ stmts_sok B (fns s) l /\ scope_stmts (tabs_of B (fns s)) l (abs s) = Some (abs s')).
+  assert (DS : (pdo (r, s1) <- parse_statement B f s;
+        match r with
+        | None => program_loop B f acc terms s1
+        | Some st => if terms then program_loop B f acc terms (serr_at K_unreachable (pos s) s1)
+                     else program_loop B f (st :: acc) (always_terms st) s1
+        end) = Ok p s' ->
+        match parse_statement B f s with
+        | Ok None s1 => loop_named f terms s1
+        | Ok (Some st) s1 => if terms then true else loop_named f (always_terms st) s1
+        | _ => true
+        end = true -> GOAL).
+  { intros H1 L1. destruct (parse_statement B f s) as [r s1| |] eqn:P; try discriminate H1.
+    pose proof (stmt_sound B _ _ _ _ P) as S1. pose proof (stmt_sim _ _ _ _ P) as M1.
+    assert (Q1 : serrs s1 = []).
+    { destruct r as [st|]; [destruct terms|]; pose proof (program_loop_sn B _ _ _ _ _ _ H1 Q) as [Q1 _];
+        [discriminate Q1|exact Q1|exact Q1]. }
+    destruct (S1 Q1) as (_ & F1 & _). destruct (M1 Q1 W) as (U1 & Fn1 & M).
+    assert (W1 : WF s1) by (split; [eapply scs_of_frames; [exact F1|apply W]|exact U1]).
+    destruct r as [st|].
+    - destruct terms.
+      + pose proof (program_loop_sn B _ _ _ _ _ _ H1 Q) as [Q2 _]. discriminate Q2.
+      + destruct (IH _ _ _ _ _ H1 Q W1 L1) as (U2 & Fn2 & l & El & Hl & Hs).
+        split; [exact U2|]. split; [congruence|]. exists (st :: l). simpl in El. rewrite <- app_assoc in El. split; [exact El|].
+        destruct M as [Ms Mc]. rewrite Fn1 in *. split; [constructor; assumption|]. simpl. rewrite Mc. simpl. exact Hs.
+    - destruct (IH _ _ _ _ _ H1 Q W1 L1) as (U2 & Fn2 & l & El & Hl & Hs).
+      split; [exact U2|]. split; [congruence|]. exists l. rewrite Fn1, M in *. auto. }
+  assert (DF : forall r s1,
+               (serrs s1 = [] -> frames s1 = frames s /\ sused s1 = [] /\ fns s1 = fns s /\
+                  match r with
+                  | Some st => stmt_sok B (fns s) st /\ scope_stmt (tabs_of B (fns s)) st (abs s) = Some (abs s1)
+                  | None => abs s1 = abs s
+                  end) ->
+               loop_named f terms s1 = true ->
+               program_loop B f (match r with Some st => st :: acc | None => acc end) terms s1 = Ok p s' -> GOAL).
+  { intros r s1 S1 L1 H1. destruct (program_loop_sn B _ _ _ _ _ _ H1 Q) as [Q1 _]. destruct (S1 Q1) as (F1 & U1 & Fn1 & M).
+    assert (W1 : WF s1) by (split; [eapply scs_of_frames; [exact F1|apply W]|exact U1]).
+    destruct (IH _ _ _ _ _ H1 Q W1 L1) as (U2 & Fn2 & l & El & Hl & Hs).
+    split; [exact U2|]. split; [congruence|]. rewrite Fn1 in *.
+    destruct r as [st|].
+    - exists (st :: l). simpl in El. rewrite <- app_assoc in El. split; [exact El|].
+      destruct M as [Ms Mc]. split; [constructor; assumption|]. simpl. rewrite Mc. simpl. exact Hs.
+    - exists l. rewrite M in *. auto. }
+  destruct (ct s); try exact (DS H LN).
+  - apply Ok_inj in H as [E1 E2]; subst. destruct W. split; [assumption|]. split; [reflexivity|].
+    exists []. rewrite app_nil_r. split; [reflexivity|]. split; [constructor|reflexivity].
+  - apply andb_true_iff in LN as [TI LN].
+    assert (TI' : ct (adv s) = T_IDENT) by (destruct (ct (adv s)); try discriminate TI; reflexivity). clear TI. rename TI' into TI.
+    destruct (parse_func B f s) as [r s1| |] eqn:P; try discriminate H. apply (DF r s1); [|exact LN|exact H].
+    intro Q1. destruct (func_sound B _ _ _ _ P Q1) as (_ & F1 & _). destruct (func_sim' _ _ _ _ P Q1 W) as (U1 & Fn1 & M). split; [exact F1|]. split; [exact U1|]. split; [exact Fn1|].
+    destruct r; [exact M|contradiction].
+  - destruct (parse_event_handler B f s) as [r s1| |] eqn:P; try discriminate H. apply (DF r s1); [|exact LN|exact H].
+    intro Q1. destruct (event_handler_sound B _ _ _ _ P Q1) as (_ & F1 & _). destruct (event_handler_sim _ _ _ _ P Q1 W) as (U1 & Fn1 & M). auto.
+Qed.
+
+(* the static part alone does not need [loop_named] *)
+Lemma program_loop_static : forall fuel acc terms s p s', program_loop B fuel acc terms s = Ok p s' ->
+  serrs s' = [] -> WF s ->
+  sused s' = [] /\ fns s' = fns s /\ exists l, p = rev acc ++ l /\ stmts_sok B (fns s) l.
+Proof.
+  induction fuel as [|f IH]; intros acc terms s p s' H Q W; [discriminate|]. cbn [program_loop] in H.
+  set (GOAL := sused s' = [] /\ fns s' = fns s /\ exists l, p = rev acc ++ l /\ stmts_sok B (fns s) l).
+  assert (DS : (pdo (r, s1) <- parse_statement B f s;
+        match r with
+        | None => program_loop B f acc terms s1
+        | Some st => if terms then program_loop B f acc terms (serr_at K_unreachable (pos s) s1)
+                     else program_loop B f (st :: acc) (always_terms st) s1
+        end) = Ok p s' -> GOAL).
+  { intros H1. destruct (parse_statement B f s) as [r s1| |] eqn:P; try discriminate H1.
+    pose proof (stmt_sound B _ _ _ _ P) as S1. pose proof (stmt_sim _ _ _ _ P) as M1.
+    assert (Q1 : serrs s1 = []).
+    { destruct r as [st|]; [destruct terms|]; pose proof (program_loop_sn B _ _ _ _ _ _ H1 Q) as [Q1 _];
+        [discriminate Q1|exact Q1|exact Q1]. }
+    destruct (S1 Q1) as (_ & F1 & _). destruct (M1 Q1 W) as (U1 & Fn1 & M).
+    assert (W1 : WF s1) by (split; [eapply scs_of_frames; [exact F1|apply W]|exact U1]).
+    destruct r as [st|].
+    - destruct terms.
+      + pose proof (program_loop_sn B _ _ _ _ _ _ H1 Q) as [Q2 _]. discriminate Q2.
+      + destruct (IH _ _ _ _ _ H1 Q W1) as (U2 & Fn2 & l & El & Hl).
+        split; [exact U2|]. split; [congruence|]. exists (st :: l). simpl in El. rewrite <- app_assoc in El. split; [exact El|].
+        destruct M as [Ms Mc]. rewrite Fn1 in *. constructor; assumption.
+    - destruct (IH _ _ _ _ _ H1 Q W1) as (U2 & Fn2 & l & El & Hl).
+      split; [exact U2|]. split; [congruence|]. exists l. rewrite Fn1 in *. auto. }
+  assert (DF : forall r s1,
+               (serrs s1 = [] -> frames s1 = frames s /\ sused s1 = [] /\ fns s1 = fns s /\
+                  match r with Some st => stmt_sok B (fns s) st | None => True end) ->
+               program_loop B f (match r with Some st => st :: acc | None => acc end) terms s1 = Ok p s' -> GOAL).
+  { intros r s1 S1 H1. destruct (program_loop_sn B _ _ _ _ _ _ H1 Q) as [Q1 _]. destruct (S1 Q1) as (F1 & U1 & Fn1 & M).
+    assert (W1 : WF s1) by (split; [eapply scs_of_frames; [exact F1|apply W]|exact U1]).
+    destruct (IH _ _ _ _ _ H1 Q W1) as (U2 & Fn2 & l & El & Hl).
+    split; [exact U2|]. split; [congruence|]. rewrite Fn1 in *.
+    destruct r as [st|].
+    - exists (st :: l). simpl in El. rewrite <- app_assoc in El. split; [exact El|]. constructor; assumption.
+    - exists l. auto. }
+  destruct (ct s); try exact (DS H).
+  - apply Ok_inj in H as [E1 E2]; subst. destruct W. split; [assumption|]. split; [reflexivity|].
+    exists []. rewrite app_nil_r. split; [reflexivity|constructor].
+  - destruct (parse_func B f s) as [r s1| |] eqn:P; try discriminate H. apply (DF r s1); [|exact H].
+    intro Q1. destruct (func_sound B _ _ _ _ P Q1) as (_ & F1 & _). destruct (func_sim' _ _ _ _ P Q1 W) as (U1 & Fn1 & M).
+    split; [exact F1|]. split; [exact U1|]. split; [exact Fn1|]. destruct r; [apply M|exact I].
+  - destruct (parse_event_handler B f s) as [r s1| |] eqn:P; try discriminate H. apply (DF r s1); [|exact H].
+    intro Q1. destruct (event_handler_sound B _ _ _ _ P Q1) as (_ & F1 & _). destruct (event_handler_sim _ _ _ _ P Q1 W) as (U1 & Fn1 & M).
+    split; [exact F1|]. split; [exact U1|]. split; [exact Fn1|]. destruct r; [apply M|exact I].
+Qed.
+
+End ProgramSim.
+
+(* ================================================================ *)
+(** * Accept implies the static expression rules and the scoping rules *)
+
+Definition toks_of (raw : list (token * position)) : list token :=
+  map fst (filter (fun tp => negb (is_illegal (fst tp))) raw).
+(* the parser as newParser creates it: the builtin functions *)
+Definition init_state (B : benv) (toks : list token) : pst :=
+  {| cs := state_at tEOF toks []; scs := [];
+     fns := map (fun nb => (fst nb, {| fi_nil := snd nb; fi_ret := true;
+                                      fi_arity := match lookup_arity (fst nb) (b_arity B) with Some a => a | None => None end;
+                                      fi_params := [] |})) (b_funcs B);
+     bodies := []; hds := [] |}.
+(* the function table after the signature pre-pass (parseFuncSignatures): builtins and one entry per `func` signature *)
+Definition fn_table (B : benv) (raw : list (token * position)) : list (str * finfo) :=
+  match signatures B tEOF (toks_of raw) (init_state B (toks_of raw)) with Ok _ s1 => fns s1 | _ => [] end.
+Definition globals_scope (B : benv) : scope :=
+  {| sc_vars := map (fun n => {| v_name := n; v_used := true; v_pos := 0 |}) (b_globals B);
+     sc_ret := false; sc_retval := false; sc_loop := false |}.
+Definition main_state (B : benv) (raw : list (token * position)) : pst :=
+  {| cs := state_at tEOF (toks_of raw) []; scs := [globals_scope B]; fns := fn_table B raw; bodies := []; hds := [] |}.
+(* the statement loop of this parse never arrives at a `func` keyword that is not followed by an identifier *)
+Definition funcs_named (B : benv) (raw : list (token * position)) : bool :=
+  loop_named B (fuel_of (toks_of raw)) false (main_state B raw).
+
+Lemma accept_inv B raw eof p : parse B raw eof = Accept p ->
+  exists s3, program_loop B (fuel_of (toks_of raw)) [] false (main_state B raw) = Ok p s3 /\ serrs (validate_scope s3) = [].
+Proof.
+  unfold parse, main_state, fn_table, toks_of, init_state, globals_scope.
+  destruct (signatures B tEOF _ _) as [u s1| |]; try discriminate.
+  destruct (_ ++ _) as [|e0 es0]; [|discriminate].
+  match goal with |- context[program_loop B ?fu [] false ?s2] => destruct (program_loop B fu [] false s2) as [prog s3| |] eqn:PL end; try discriminate.
+  destruct (map _ (rev (errs (cs (validate_scope s3))))) as [|e1 es1] eqn:EM; [|discriminate].
+  intro H. injection H as <-. apply map_rev_nil in EM. exists s3. split; [reflexivity|exact EM].
+Qed.
+
+Lemma main_state_wf B raw : WF (main_state B raw).
+Proof. split; [discriminate|reflexivity]. Qed.
+Lemma main_state_abs B raw : abs (main_state B raw) = [map (fun n => (n, true)) (b_globals B)].
+Proof. unfold abs, main_state, absf, globals_scope. simpl. rewrite map_map. reflexivity. Qed.
+
+(* (e) + typing oracle, at program level: every expression of an accepted program satisfies the call rules w.r.t. the
+   table of the signature pre-pass, and no typing site fired *)
+Theorem accept_static B raw eof p : parse B raw eof = Accept p -> stmts_sok B (fn_table B raw) p.
+Proof.
+  intro H. destruct (accept_inv _ _ _ _ H) as (s3 & PL & Q).
+  destruct (program_loop_static B _ _ _ _ _ _ PL (serrs_validate_scope _ Q) (main_state_wf B raw)) as (_ & _ & l & El & Hl).
+  simpl in El. subst l. exact Hl.
+Qed.
+
+(* (f) (g) (h): the accepted program passes the declarative scope checker *)
+Theorem accept_scoped_partial B raw eof p : parse B raw eof = Accept p -> funcs_named B raw = true ->
+  scope_prog (tabs_of B (fn_table B raw)) p = true.
+Proof.
+  intros H LN. destruct (accept_inv _ _ _ _ H) as (s3 & PL & Q).
+  pose proof (serrs_validate_scope _ Q) as Q3.
+  destruct (program_loop_sim B _ _ _ _ _ _ PL Q3 (main_state_wf B raw) LN) as (_ & _ & l & El & _ & Hs).
+  simpl in El. subst l.
+  destruct (program_loop_sn B _ _ _ _ _ _ PL Q3) as [_ F3].
+  unfold scope_prog. rewrite main_state_abs in Hs. cbn [t_globals tabs_of].
+  change (fns (main_state B raw)) with (fn_table B raw) in Hs. rewrite Hs. cbn [obind].
+  rewrite (validate_close _ Q); [reflexivity|]. eapply scs_of_frames; [exact F3|discriminate].
 Qed.
